@@ -12,7 +12,14 @@
 //! Context serving in-memory grids decoded by the REAL BaseGrid::gravsoft / Ntv2Grid::new,
 //! (3) the comparison rules of DESIGN 5.8.
 use geodesy::authoring::*;
-use gvh::util::{guarded, quiet_panics};
+use gvh::util::guarded;
+
+/// panics of the code under test are data; GVH_LOUD=1 shows them (and the harness's own) on stderr
+fn quiet_panics() {
+    if std::env::var("GVH_LOUD").is_err() {
+        gvh::util::quiet_panics();
+    }
+}
 use serde_json::{json, Value};
 use std::collections::BTreeMap;
 use std::io::{BufRead, Write};
@@ -941,10 +948,656 @@ fn cmd_c08(input: &str, output: &str) -> i32 {
 // C15
 // ---------------------------------------------------------------------------------------------
 //C15-BEGIN
-fn cmd_c15wf(_i: &str, _o: &str) -> i32 { 2 }
-fn cmd_gsa(_o: &str) -> i32 { 2 }
-fn cmd_fault(_j: &str, _o: &str, _p: &str) -> i32 { 2 }
-fn cmd_encode(_c: &str, _o: &str) -> i32 { 2 }
+const REPO_GEODESY: &str = "/repo/geodesy";
+
+fn repo_dir() -> String {
+    std::env::var("VERIF_REPO").map(|r| format!("{r}/geodesy")).unwrap_or_else(|_| REPO_GEODESY.to_string())
+}
+
+struct Case {
+    fmt: String,
+    kind: String,
+    frame: Frame,
+    scale: i64,
+    file: Option<FileA>,
+    shipped: String,
+}
+
+impl Case {
+    fn from_json(v: &Value) -> Case {
+        let shipped = v["shipped"].as_str().unwrap_or("").to_string();
+        Case {
+            fmt: v["fmt"].as_str().unwrap_or("").to_string(),
+            kind: v["kind"].as_str().unwrap_or("").to_string(),
+            frame: if v["frame"] == "projected" { Frame::Projected } else { Frame::Angular },
+            scale: v["scale"].as_i64().unwrap_or(1),
+            file: if shipped.is_empty() { Some(FileA::from_json(&v["file"])) } else { None },
+            shipped,
+        }
+    }
+    fn base_bytes(&self) -> Vec<u8> {
+        match &self.file {
+            Some(f) => encode_file(f, &self.fmt, self.frame, self.scale),
+            None => std::fs::read(format!("{}/{}", repo_dir(), self.shipped)).expect("cannot read shipped grid file"),
+        }
+    }
+}
+
+// ---- Corrupt(field, class) on generated files --------------------------------------------------
+
+fn corrupt_gravsoft(c: &Case, token: usize, field: &str, class: &str) -> Vec<u8> {
+    let f = c.file.as_ref().unwrap();
+    let g = &f.subs[0];
+    let (mut h, mut rows) = gravsoft_tokens(g, c.frame, c.scale);
+    if field == "token" {
+        let i = token - 1;
+        let partner = [1usize, 0, 3, 2, 4, 5][i];
+        h[i] = match class {
+            "zero" => "0".to_string(),
+            "neg" => if h[i].starts_with('-') { h[i][1..].to_string() } else { format!("-{}", h[i]) },
+            "bad" => "x7".to_string(),
+            "inf" => "inf".to_string(),
+            "plus" => match i {
+                0 => c.frame.y_text(g.south() + g.dy),
+                1 => c.frame.y_text(g.n + g.dy),
+                2 => c.frame.x_text(g.w + g.dy),
+                3 => c.frame.x_text(g.east() + g.dy),
+                4 => c.frame.d_text(g.dy + g.dy),
+                _ => c.frame.d_text(g.dx + g.dy),
+            },
+            "eq" => h[partner].clone(),
+            _ => h[i].clone(),
+        };
+    } else {
+        match class {
+            "drop_last" => {
+                rows.last_mut().unwrap().pop();
+            }
+            "extra" => rows.push(vec!["1".to_string()]),
+            "header_only" => rows.clear(),
+            "five_numbers" => {
+                rows.clear();
+                h.truncate(5);
+            }
+            _ => {}
+        }
+    }
+    gravsoft_layout(&h, &rows, f.text)
+}
+
+fn corrupt_ntv2(c: &Case, field: &str, class: &str, k: usize) -> Vec<u8> {
+    let f = c.file.as_ref().unwrap();
+    let (mut b, offsets) = encode_ntv2(f, c.scale);
+    let be = f.big_endian;
+    let rd_i = |b: &[u8], o: usize| -> i32 { let x: [u8; 4] = b[o..o + 4].try_into().unwrap(); if be { i32::from_be_bytes(x) } else { i32::from_le_bytes(x) } };
+    let rd_f = |b: &[u8], o: usize| -> f64 { let x: [u8; 8] = b[o..o + 8].try_into().unwrap(); if be { f64::from_be_bytes(x) } else { f64::from_le_bytes(x) } };
+    let wr_i = |b: &mut Vec<u8>, o: usize, v: i32| b[o..o + 4].copy_from_slice(&if be { v.to_be_bytes() } else { v.to_le_bytes() });
+    let wr_f = |b: &mut Vec<u8>, o: usize, v: f64| b[o..o + 8].copy_from_slice(&if be { v.to_be_bytes() } else { v.to_le_bytes() });
+    let wr_s = |b: &mut Vec<u8>, o: usize, v: &[u8]| {
+        let mut x = v.to_vec();
+        x.resize(8, b' ');
+        b[o..o + 8].copy_from_slice(&x[..8]);
+    };
+    let int_of = |v: i32, class: &str| match class { "zero" => 0, "minus" => -1, "less" => v - 1, "more" => v + 1, _ => i32::MAX };
+    let str_of = |own: &[u8], class: &str| -> Vec<u8> {
+        match class { "nonutf8" => vec![0xff, 0xfe, 0xc0, 0x80, b'A', 0xff, b' ', b' '], "none" => b"NONE".to_vec(), "self" => own.to_vec(), "unknown" => b"ZZZ".to_vec(), _ => b"METERS".to_vec() }
+    };
+    if k == 0 {
+        match field {
+            "NUM_OREC" | "NUM_SREC" | "NUM_FILE" => {
+                let o = match field { "NUM_OREC" => 8, "NUM_SREC" => 24, _ => 40 };
+                let v = rd_i(&b, o);
+                wr_i(&mut b, o, int_of(v, class));
+            }
+            _ => wr_s(&mut b, 56, &str_of(b"", class)),
+        }
+        return b;
+    }
+    let p = offsets[k - 1];
+    let (name, parent, slat, nlat, elon, wlon, dlat, dlon, cnt) = (p + 8, p + 24, p + 72, p + 88, p + 104, p + 120, p + 136, p + 152, p + 168);
+    let g = &f.subs[f.order[k - 1] - 1];
+    match field {
+        "one_row" => {
+            let v = rd_f(&b, slat);
+            wr_f(&mut b, nlat, v);
+            wr_i(&mut b, cnt, g.cols as i32);
+        }
+        "one_col" => {
+            let v = rd_f(&b, elon);
+            wr_f(&mut b, wlon, v);
+            wr_i(&mut b, cnt, g.rows as i32);
+        }
+        "none_named_none" => {
+            wr_s(&mut b, name, b"NONE");
+            wr_s(&mut b, parent, b"NONE");
+        }
+        "GS_COUNT" => {
+            let v = rd_i(&b, cnt);
+            wr_i(&mut b, cnt, int_of(v, class));
+        }
+        "SUB_NAME" | "PARENT" => {
+            let own = b[name..name + 8].to_vec();
+            let o = if field == "SUB_NAME" { name } else { parent };
+            wr_s(&mut b, o, &str_of(&own, class));
+        }
+        _ => {
+            let (o, partner) = match field {
+                "S_LAT" => (slat, nlat),
+                "N_LAT" => (nlat, slat),
+                "E_LONG" => (elon, wlon),
+                "W_LONG" => (wlon, elon),
+                "LAT_INC" => (dlat, dlat),
+                _ => (dlon, dlon),
+            };
+            let v = rd_f(&b, o);
+            let nv = match class { "zero" => 0.0, "nan" => f64::NAN, "inf" => f64::INFINITY, "neg" => -v, "tiny" => 1e-300, "huge" => 1e300, _ => rd_f(&b, partner) };
+            wr_f(&mut b, o, nv);
+        }
+    }
+    b
+}
+
+/// fault row <<t, a, b, c, fs, cl>> -> the damaged bytes
+fn apply_fault(c: &Case, base: &[u8], ft: &Value) -> Vec<u8> {
+    let a = ft[1].as_u64().unwrap_or(0) as usize;
+    let b = ft[2].as_u64().unwrap_or(0) as usize;
+    let k = ft[3].as_u64().unwrap_or(0) as usize;
+    match ft[0].as_str().unwrap_or("") {
+        "trunc" => base[..a.min(base.len())].to_vec(),
+        "flip" => {
+            let mut x = base.to_vec();
+            if a < x.len() {
+                x[a] ^= 1 << b;
+            }
+            x
+        }
+        // hand-written reproductions: overwrite bytes at offset a with the hex string fs / replace the whole file by the text fs
+        "patch" => {
+            let mut x = base.to_vec();
+            let hex = ft[4].as_str().unwrap_or("");
+            for (i, k) in (0..hex.len() / 2).enumerate() {
+                if a + i < x.len() {
+                    x[a + i] = u8::from_str_radix(&hex[2 * k..2 * k + 2], 16).unwrap_or(0);
+                }
+            }
+            x
+        }
+        "replace" => ft[4].as_str().unwrap_or("").as_bytes().to_vec(),
+        "corrupt" => {
+            let (fs, cl) = (ft[4].as_str().unwrap_or(""), ft[5].as_str().unwrap_or(""));
+            if c.fmt == "ntv2" { corrupt_ntv2(c, fs, cl, k) } else { corrupt_gravsoft(c, a, fs, cl) }
+        }
+        _ => base.to_vec(),
+    }
+}
+
+/// Points a decoded (possibly damaged) grid is queried at
+fn query_points(c: &Case) -> Vec<Coor4D> {
+    let mut pts = vec![];
+    let ntv2 = c.fmt == "ntv2";
+    if let Some(f) = &c.file {
+        let (mut x0, mut x1, mut y0, mut y1) = (i64::MAX, i64::MIN, i64::MAX, i64::MIN);
+        for g in &f.subs {
+            x0 = x0.min(g.w);
+            x1 = x1.max(g.east());
+            y0 = y0.min(g.south());
+            y1 = y1.max(g.n);
+        }
+        let mut x = x0 - 24;
+        while x <= x1 + 24 {
+            let mut y = y0 - 24;
+            while y <= y1 + 24 {
+                pts.push(Coor4D::raw(c.frame.x_query(x, ntv2), c.frame.y_query(y, ntv2), 10.0, 2020.0));
+                y += 2;
+            }
+            x += 2;
+        }
+    } else {
+        // the shipped grids: every whole and half degree of 52..60 N x 6..18 E, 38..44 N x -2..5 E, a coarse globe
+        let mut add = |la0: f64, la1: f64, lo0: f64, lo1: f64, step: f64| {
+            let mut la = la0;
+            while la <= la1 {
+                let mut lo = lo0;
+                while lo <= lo1 {
+                    pts.push(Coor4D::geo(la, lo, 10.0, 2020.0));
+                    lo += step;
+                }
+                la += step;
+            }
+        };
+        add(52.0, 60.0, 6.0, 18.0, 0.5);
+        add(38.0, 44.0, -2.0, 5.0, 0.5);
+        add(62.0, 70.0, 16.0, 28.0, 1.0);
+        add(-90.0, 90.0, -180.0, 180.0, 15.0);
+    }
+    for v in [0.0, f64::NAN, f64::INFINITY, f64::NEG_INFINITY, 1e300, -1e300, 1e-300] {
+        pts.push(Coor4D::raw(v, v, 0.0, 0.0));
+        pts.push(Coor4D::raw(v, 0.9, 0.0, 0.0));
+        pts.push(Coor4D::raw(0.2, v, 0.0, 0.0));
+    }
+    pts
+}
+
+/// Everything a user may do with a grid that decoded: contains / at with several margins, and
+/// the operators built on it.  Returns Err(panic message) if any of it panics.
+fn query_all(grid: Arc<dyn Grid>, pts: &[Coor4D], with_ops: bool) -> Result<usize, String> {
+    let mut n = 0;
+    let g2 = grid.clone();
+    guarded(move || {
+        let mut k = 0usize;
+        for p in pts {
+            for m in [0.0, 0.5, 3.0] {
+                if g2.contains(p, m) {
+                    k += 1;
+                }
+                if g2.at(p, m).is_some() {
+                    k += 1;
+                }
+            }
+        }
+        k
+    })
+    .map(|k| n += k)?;
+    if with_ops {
+        let bands = guarded(|| grid.bands())?;
+        let mut map = BTreeMap::new();
+        map.insert("damaged.grid".to_string(), grid.clone());
+        let mut ctx = HCtx::with(map);
+        let def = if bands == 3 { "deformation dt=10 grids=damaged.grid" } else { "gridshift grids=damaged.grid" };
+        if let Ok(h) = guarded(|| ctx.op(def))?.map_err(|e| format!("{e:?}")) {
+            let ctx = &ctx;
+            guarded(move || {
+                for dir in [Fwd, Inv] {
+                    let mut d: Vec<Coor4D> = pts.to_vec();
+                    if bands == 3 {
+                        let e = Ellipsoid::default();
+                        for x in d.iter_mut() {
+                            *x = e.cartesian(x);
+                        }
+                    }
+                    let _ = ctx.apply(h, dir, &mut d);
+                }
+            })?;
+        }
+    }
+    Ok(n)
+}
+
+/// fault <job.json> <out.ndjson> <progress>: job = {"case": FILE record, "start": index}
+fn cmd_fault(job: &str, output: &str, progress: &str) -> i32 {
+    quiet_panics();
+    let j: Value = serde_json::from_str(&std::fs::read_to_string(job).expect("cannot read job")).expect("bad job json");
+    let case = Case::from_json(&j["case"]);
+    let start = j["start"].as_u64().unwrap_or(0) as usize;
+    let with_ops = j["ops"].as_bool().unwrap_or(true);
+    let base = case.base_bytes();
+    let pts = query_points(&case);
+    let faults = j["case"]["faults"].as_array().cloned().unwrap_or_default();
+    let mut w = std::io::BufWriter::new(std::fs::OpenOptions::new().create(true).append(true).open(output).expect("cannot open output"));
+    let (mut n_err, mut n_ok, mut n_bad, mut evals) = (0usize, 0usize, 0usize, 0usize);
+    for (i, ft) in faults.iter().enumerate().skip(start) {
+        // index of the fault in progress and the outcome counts so far (read by the driver if this process dies)
+        std::fs::write(progress, format!("{i} {n_err} {n_ok} {evals}")).ok();
+        let bytes = apply_fault(&case, &base, ft);
+        evals += 1;
+        // self-test of the driver's three detection paths (panic / abort / hang of the code under test)
+        match ft[0].as_str().unwrap_or("") {
+            "selftest_abort" => std::process::abort(),
+            "selftest_hang" => loop {
+                std::thread::sleep(std::time::Duration::from_millis(50));
+            },
+            _ => {}
+        }
+        let selftest_panic = ft[0] == "selftest_panic";
+        let decoded = if selftest_panic { guarded(|| -> Result<Arc<dyn Grid>, String> { panic!("selftest panic") }) } else { decode(&case.fmt, &bytes) };
+        let outcome = match decoded {
+            Err(msg) => Some(("panic_decode", msg)),
+            Ok(Err(_)) => {
+                n_err += 1;
+                None
+            }
+            Ok(Ok(g)) => match query_all(g, &pts, with_ops) {
+                Ok(k) => {
+                    evals += k.max(1);
+                    n_ok += 1;
+                    None
+                }
+                Err(msg) => Some(("panic_query", msg)),
+            },
+        };
+        if let Some((what, msg)) = outcome {
+            n_bad += 1;
+            writeln!(w, "{}", json!({"i":i,"fault":ft,"what":what,"msg":msg,"len":bytes.len()})).unwrap();
+            w.flush().unwrap();
+        }
+    }
+    writeln!(w, "{}", json!({"summary":true,"start":start,"faults":faults.len(),"err":n_err,"ok_safe":n_ok,"violating":n_bad,"evaluations":evals})).unwrap();
+    w.flush().unwrap();
+    std::fs::write(progress, "done").ok();
+    0
+}
+
+/// encode <case.json> <outfile>: {"case": FILE record, "fault": row or null} -> the bytes
+fn cmd_encode(casefile: &str, out: &str) -> i32 {
+    let j: Value = serde_json::from_str(&std::fs::read_to_string(casefile).expect("cannot read case")).expect("bad json");
+    let case = Case::from_json(&j["case"]);
+    let base = case.base_bytes();
+    let bytes = if j["fault"].is_array() { apply_fault(&case, &base, &j["fault"]) } else { base };
+    std::fs::write(out, bytes).expect("cannot write");
+    0
+}
+
+// ---- well-formed files -------------------------------------------------------------------------
+
+struct Wf {
+    w: std::io::BufWriter<std::fs::File>,
+    fails: usize,
+    tool: usize,
+    evals: usize,
+    cases: usize,
+    nodes_read: usize,
+}
+impl Wf {
+    fn fail(&mut self, id: &Value, what: &str, mut d: Value) {
+        self.fails += 1;
+        d["id"] = id.clone();
+        d["what"] = json!(what);
+        writeln!(self.w, "{}", d).unwrap();
+    }
+    fn tool(&mut self, id: &Value, what: &str, mut d: Value) {
+        self.tool += 1;
+        d["id"] = id.clone();
+        d["tool"] = json!(what);
+        writeln!(self.w, "{}", d).unwrap();
+    }
+}
+
+fn subgrid_contains(g: &Sub, x: i64, y: i64) -> bool {
+    x >= g.w && x <= g.east() && y >= g.south() && y <= g.n
+}
+
+/// Read a decoded grid back through Grid::at at the node positions and Grid::contains at the
+/// borders, and compare with the abstract file.
+fn read_back(wf: &mut Wf, id: &Value, c: &Case, f: &FileA, grid: &Arc<dyn Grid>, dec: &[(usize, f64)], conv: &Conv) {
+    let ntv2 = c.fmt == "ntv2";
+    let exact = c.frame == Frame::Projected;
+    let maxv = conv.to_internal(f.subs.iter().map(|s| s.max_abs_node()).max().unwrap_or(0) as f64 / c.scale as f64).abs();
+    let tol = if exact { 0.0 } else { 1e-6 * maxv };
+    for (si, g) in f.subs.iter().enumerate() {
+        let is_root = g.parent == "NONE";
+        for r in 0..g.rows {
+            for cc in 0..g.cols {
+                let (x, y) = (g.w + cc as i64 * g.dx, g.n - r as i64 * g.dy);
+                // a node that another (deeper or neighbouring) sub-grid may answer for is not read
+                let covered = f.subs.iter().enumerate().any(|(j, h)| j != si && h.parent != "NONE" && subgrid_contains(h, x, y) && !is_ancestor(f, j, si));
+                let upper = !is_root && (x == g.east() || y == g.n);
+                if covered || upper {
+                    continue;
+                }
+                let p = Coor4D::raw(c.frame.x_query(x, ntv2), c.frame.y_query(y, ntv2), 0.0, 0.0);
+                wf.evals += 1;
+                match guarded(|| grid.at(&p, 0.0)) {
+                    Err(msg) => wf.fail(id, "panic_at_node", json!({"sub":g.name,"row":r,"col":cc,"msg":msg})),
+                    Ok(None) => wf.fail(id, "node_not_contained", json!({"sub":g.name,"row":r,"col":cc,"lon":p[0],"lat":p[1]})),
+                    Ok(Some(v)) => {
+                        wf.nodes_read += 1;
+                        let want: Vec<f64> = dec.iter().map(|(b, s)| s * conv.to_internal(g.nodes[r][cc][*b - 1] as f64 / c.scale as f64)).collect();
+                        if !want.iter().enumerate().all(|(i, e)| close_to(*e, v[i], tol)) {
+                            wf.fail(id, "node_value", json!({"sub":g.name,"row":r,"col":cc,"expected":want,"observed":v.0,"tol":tol}));
+                        }
+                    }
+                }
+            }
+        }
+        if !is_root {
+            continue;
+        }
+        // the extent: an eighth of a cell inside / outside each border, and on it
+        let (xm, ym) = ((g.w + g.east()) / 2, (g.south() + g.n) / 2);
+        let probes = [
+            (g.w, ym, true), (g.w + g.dx / 8, ym, true), (g.w - g.dx / 8, ym, false),
+            (g.east(), ym, true), (g.east() - g.dx / 8, ym, true), (g.east() + g.dx / 8, ym, false),
+            (xm, g.n, true), (xm, g.n - g.dy / 8, true), (xm, g.n + g.dy / 8, false),
+            (xm, g.south(), true), (xm, g.south() + g.dy / 8, true), (xm, g.south() - g.dy / 8, false),
+        ];
+        for (x, y, want) in probes {
+            // another root may legitimately contain a point outside this one
+            let other = f.subs.iter().enumerate().any(|(j, h)| j != si && h.parent == "NONE" && subgrid_contains(h, x, y));
+            if other && !want {
+                continue;
+            }
+            let p = Coor4D::raw(c.frame.x_query(x, ntv2), c.frame.y_query(y, ntv2), 0.0, 0.0);
+            wf.evals += 1;
+            match guarded(|| grid.contains(&p, 0.0)) {
+                Err(msg) => wf.fail(id, "panic_contains", json!({"sub":g.name,"x":x,"y":y,"msg":msg})),
+                Ok(obs) => {
+                    if obs != want {
+                        wf.fail(id, "extent", json!({"sub":g.name,"x":x,"y":y,"expected":want,"observed":obs}));
+                    }
+                }
+            }
+        }
+    }
+}
+
+fn is_ancestor(f: &FileA, anc: usize, of: usize) -> bool {
+    let mut cur = of;
+    for _ in 0..f.subs.len() {
+        let p = &f.subs[cur].parent;
+        match f.subs.iter().position(|s| &s.name == p) {
+            Some(j) => {
+                if j == anc {
+                    return true;
+                }
+                cur = j;
+            }
+            None => return false,
+        }
+    }
+    false
+}
+
+fn cmd_c15wf(input: &str, output: &str) -> i32 {
+    quiet_panics();
+    let f = std::fs::File::open(input).expect("cannot open input");
+    let w = std::io::BufWriter::new(std::fs::File::create(output).expect("cannot create output"));
+    let mut wf = Wf { w, fails: 0, tool: 0, evals: 0, cases: 0, nodes_read: 0 };
+    for line in std::io::BufReader::new(f).lines() {
+        let line = line.unwrap();
+        if line.trim().is_empty() {
+            continue;
+        }
+        let v: Value = serde_json::from_str(&line).expect("bad json");
+        let id = v["id"].clone();
+        let c = Case::from_json(&v);
+        let Some(file) = c.file.clone() else { continue };
+        wf.cases += 1;
+        let bytes = c.base_bytes();
+        // the harness's encoder and the specification's Encode must be the same relation
+        if bytes.len() as u64 != v["speclen"].as_u64().unwrap_or(0) {
+            wf.tool(&id, "length differs from the specification's", json!({"harness":bytes.len(),"spec":v["speclen"]}));
+        }
+        if c.fmt == "gravsoft" {
+            let eol = if v["eol"] == "crlf" { "\r\n" } else { "\n" };
+            let lines: Vec<String> = v["lines"].as_array().unwrap().iter().map(|l| l.as_str().unwrap().replace('~', "\t")).collect();
+            let mut text = lines.join(eol);
+            if v["final_eol"].as_bool().unwrap_or(false) {
+                text += eol;
+            }
+            if text.as_bytes() != bytes.as_slice() {
+                wf.tool(&id, "text differs from the specification's", json!({"harness":String::from_utf8_lossy(&bytes),"spec":text}));
+            }
+        } else {
+            let be = file.big_endian;
+            let recs = v["records"].as_array().unwrap();
+            for (i, r) in recs.iter().enumerate() {
+                let b = &bytes[16 * i..(16 * i + 16).min(bytes.len())];
+                if b.len() < 16 {
+                    break;
+                }
+                let key = r[0].as_str().unwrap();
+                let t = r[1].as_str().unwrap();
+                let i4 = |o: usize| { let x: [u8; 4] = b[o..o + 4].try_into().unwrap(); if be { i32::from_be_bytes(x) } else { i32::from_le_bytes(x) } };
+                let f4 = |o: usize| { let x: [u8; 4] = b[o..o + 4].try_into().unwrap(); if be { f32::from_be_bytes(x) } else { f32::from_le_bytes(x) } };
+                let f8 = |o: usize| { let x: [u8; 8] = b[o..o + 8].try_into().unwrap(); if be { f64::from_be_bytes(x) } else { f64::from_le_bytes(x) } };
+                let keytext = String::from_utf8_lossy(&b[..8]).trim().to_string();
+                let ok = match t {
+                    "int" => keytext == key && i4(8) as i64 == r[2].as_i64().unwrap(),
+                    "str" => keytext == key && String::from_utf8_lossy(&b[8..16]).trim() == r[3].as_str().unwrap(),
+                    "real" => {
+                        let a = r[4].as_i64().unwrap();
+                        let want = match key {
+                            "S_LAT" | "N_LAT" => (LAT0 * 64 + a) as f64 * 56.25,
+                            // the specification holds -x (west-positive); in arc-seconds: -(LON0 * 64 + x) * 56.25
+                            "E_LONG" | "W_LONG" => -((LON0 * 64 - a) as f64) * 56.25,
+                            "LAT_INC" | "LONG_INC" => a as f64 * 56.25,
+                            _ => f8(8),
+                        };
+                        keytext == key && f8(8) == want
+                    }
+                    "node" => f4(0) as f64 == r[4].as_i64().unwrap() as f64 / c.scale as f64 && f4(4) as f64 == r[5].as_i64().unwrap() as f64 / c.scale as f64,
+                    "end" => keytext == "END",
+                    _ => false,
+                };
+                if !ok {
+                    wf.tool(&id, "record differs from the specification's", json!({"index":i,"spec":r,"bytes":b}));
+                    break;
+                }
+            }
+        }
+        // decode with the real reader and read back
+        wf.evals += 1;
+        let conv = Conv::from_json(&json!({"el":[]}), &v["unit"], &v["dec"]);
+        match decode(&c.fmt, &bytes) {
+            Err(msg) => wf.fail(&id, "panic_decode_wellformed", json!({"msg":msg,"case":v["file"]})),
+            Ok(Err(e)) => wf.fail(&id, "wellformed_rejected", json!({"err":e,"fmt":c.fmt,"kind":c.kind,"layout":file.text,"order":file.order,"endian":v["file"]["endian"]})),
+            Ok(Ok(g)) => {
+                let bands = file.subs[0].bands;
+                if g.bands() != bands {
+                    wf.fail(&id, "bands", json!({"expected":bands,"observed":g.bands()}));
+                }
+                read_back(&mut wf, &id, &c, &file, &g, &conv.dec.clone(), &conv);
+            }
+        }
+    }
+    let (cases, evals, fails, tool, nodes) = (wf.cases, wf.evals, wf.fails, wf.tool, wf.nodes_read);
+    writeln!(wf.w, "{}", json!({"summary":true,"cases":cases,"evaluations":evals,"mismatches":fails,"tool_problems":tool,"nodes_read":nodes})).unwrap();
+    println!("c15wf: {cases} files, {evals} evaluations, {fails} mismatches, {tool} tool problems");
+    if tool > 0 { 2 } else if fails > 0 { 1 } else { 0 }
+}
+
+// ---- the shipped .gsb files against this harness's reading of their .gsa twins -------------------
+
+struct GsaSub {
+    name: String,
+    parent: String,
+    s: f64,
+    n: f64,
+    e: f64,
+    w: f64,
+    dlat: f64,
+    dlon: f64,
+    nodes: Vec<(f64, f64)>,
+}
+
+fn read_gsa(text: &str) -> Vec<GsaSub> {
+    let mut subs: Vec<GsaSub> = vec![];
+    let mut count = 0usize;
+    let mut in_nodes = false;
+    for line in text.lines() {
+        let t = line.trim();
+        if t.is_empty() {
+            continue;
+        }
+        let key = if t.len() >= 8 { &t[..8] } else { t };
+        let val = if t.len() > 8 { t[8..].trim() } else { "" };
+        let num = || val.parse::<f64>().unwrap_or(f64::NAN);
+        if in_nodes && subs.last().map(|s| s.nodes.len() < count).unwrap_or(false) {
+            let a: Vec<f64> = t.split_whitespace().map(|x| x.parse::<f64>().unwrap_or(f64::NAN)).collect();
+            subs.last_mut().unwrap().nodes.push((a[0], a[1]));
+            continue;
+        }
+        in_nodes = false;
+        match key.trim() {
+            "SUB_NAME" => subs.push(GsaSub { name: val.to_string(), parent: String::new(), s: 0., n: 0., e: 0., w: 0., dlat: 0., dlon: 0., nodes: vec![] }),
+            "PARENT" => subs.last_mut().unwrap().parent = val.to_string(),
+            "S_LAT" => subs.last_mut().unwrap().s = num(),
+            "N_LAT" => subs.last_mut().unwrap().n = num(),
+            "E_LONG" => subs.last_mut().unwrap().e = num(),
+            "W_LONG" => subs.last_mut().unwrap().w = num(),
+            "LAT_INC" => subs.last_mut().unwrap().dlat = num(),
+            "LONG_INC" => subs.last_mut().unwrap().dlon = num(),
+            "GS_COUNT" => {
+                count = num() as usize;
+                in_nodes = true;
+            }
+            _ => {}
+        }
+    }
+    subs
+}
+
+fn cmd_gsa(output: &str) -> i32 {
+    quiet_panics();
+    let mut w = std::io::BufWriter::new(std::fs::File::create(output).expect("cannot create output"));
+    let (mut fails, mut evals, mut nodes) = (0usize, 0usize, 0usize);
+    let mut files = 0;
+    for stem in ["5458", "5458_with_subgrid"] {
+        let dir = format!("{}/gsb", repo_dir());
+        let (Ok(gsa), Ok(gsb)) = (std::fs::read_to_string(format!("{dir}/{stem}.gsa")), std::fs::read(format!("{dir}/{stem}.gsb"))) else { continue };
+        files += 1;
+        let subs = read_gsa(&gsa);
+        evals += 1;
+        let grid = match decode("ntv2", &gsb) {
+            Ok(Ok(g)) => g,
+            other => {
+                fails += 1;
+                writeln!(w, "{}", json!({"file":stem,"what":"shipped_gsb_not_decoded","detail":format!("{:?}", other.map(|r| r.map(|_| ())))})).unwrap();
+                continue;
+            }
+        };
+        for (si, g) in subs.iter().enumerate() {
+            let rows = ((g.n - g.s) / g.dlat).round() as usize + 1;
+            let cols = ((g.w - g.e) / g.dlon).round() as usize + 1;
+            if rows * cols != g.nodes.len() {
+                fails += 1;
+                writeln!(w, "{}", json!({"file":stem,"what":"gsa_count","sub":g.name})).unwrap();
+                continue;
+            }
+            for k in 0..g.nodes.len() {
+                // k-th record: from the south-east corner westwards, then northwards
+                let lat = g.s + (k / cols) as f64 * g.dlat;
+                let wlon = g.e + (k % cols) as f64 * g.dlon;
+                let inside_other = subs.iter().enumerate().any(|(j, h)| j != si && h.parent == g.name && lat >= h.s && lat <= h.n && wlon >= h.e && wlon <= h.w);
+                let upper = g.parent != "NONE" && (lat == g.n || wlon == g.e);
+                if inside_other || upper {
+                    continue;
+                }
+                let p = Coor4D::raw(-wlon.to_radians() / 3600., lat.to_radians() / 3600., 0.0, 0.0);
+                evals += 1;
+                match guarded(|| grid.at(&p, 0.0)) {
+                    Ok(Some(v)) => {
+                        nodes += 1;
+                        let want = [(-g.nodes[k].1 / 3600.0).to_radians(), (g.nodes[k].0 / 3600.0).to_radians()];
+                        let tol = 1e-6 * want[0].abs().max(want[1].abs()) + 1e-15;
+                        if !close_to(want[0], v[0], tol) || !close_to(want[1], v[1], tol) {
+                            fails += 1;
+                            writeln!(w, "{}", json!({"file":stem,"what":"gsb_differs_from_gsa","sub":g.name,"record":k,"lat_arcsec":lat,"west_lon_arcsec":wlon,
+                                "expected_lon_lat_shift_rad":want,"observed":v.0})).unwrap();
+                        }
+                    }
+                    other => {
+                        fails += 1;
+                        writeln!(w, "{}", json!({"file":stem,"what":"gsa_node_not_served","sub":g.name,"record":k,"detail":format!("{other:?}")})).unwrap();
+                    }
+                }
+            }
+        }
+    }
+    writeln!(w, "{}", json!({"summary":true,"files":files,"evaluations":evals,"nodes_read":nodes,"mismatches":fails})).unwrap();
+    println!("gsa: {files} files, {nodes} nodes compared, {fails} mismatches");
+    if fails > 0 { 1 } else { 0 }
+}
 //C15-END
 
 fn main() {
